@@ -8,12 +8,16 @@ Environment
   VERIF_C07_STATE   directory for the shared counter (`cnt`) and the trace (`trace.tsv`)         (required)
   VERIF_C07_CRASH   "<k>:b"  kill the whole process group just before mutation k is performed
                     "<k>:a"  kill it immediately after mutation k returned (nothing written since is flushed)
+                    "<k>:w"  kill it inside the write session opened by mutation k: right after the first write() call
+                             on that file returned and its data was handed to the OS (a copy in progress:
+                             shutil.copyfileobj writes 64 KiB pieces, the file holds the first one)
   VERIF_REPO        source tree to run (default /repo)
 
 A mutation = open() in a write/append/create mode, gzip.open() in a write/append mode, or os.remove(), on a path
 under the --output directory.  Trace line: `<n>\t<op>\t<path relative to the output dir>`; closing a file that was
 opened for writing is traced as an *unnumbered* line `-\tclose\t<path>`, an explicit flush as `-\tflush\t<path>`
-(content commits; not crash points of their own: the kill "after k" precedes every commit that follows mutation k).
+(content commits; not crash points of their own: the kill "after k" precedes every commit that follows mutation k);
+opening a file of the output directory for reading as an unnumbered line `-\tread\t<path>`.
 """
 import builtins
 import fcntl
@@ -126,9 +130,10 @@ class _W:
     """transparent proxy of a file object opened for writing.  It observes content commits only:
     `flush+`/`close+` = data written since the previous commit reached the file, `flush0`/`close0` = nothing new.
     The content of a write session is complete at its last `+` commit (at the open itself if there is none)."""
-    __slots__ = ("_f", "_rel", "_done", "_pid", "_dirty")
+    __slots__ = ("_f", "_rel", "_done", "_pid", "_dirty", "_n")
 
-    def __init__(self, f, rel):
+    def __init__(self, f, rel, n=None):
+        object.__setattr__(self, "_n", n)
         object.__setattr__(self, "_f", f)
         object.__setattr__(self, "_rel", rel)
         object.__setattr__(self, "_done", False)
@@ -152,7 +157,11 @@ class _W:
 
     def write(self, data):
         object.__setattr__(self, "_dirty", True)
-        return object.__getattribute__(self, "_f").write(data)
+        r = object.__getattribute__(self, "_f").write(data)
+        if CRASH_PHASE == "w" and object.__getattribute__(self, "_n") == CRASH_K:
+            object.__getattribute__(self, "_f").flush()        # what was written so far is in the file, the rest is not
+            _kill()
+        return r
 
     def writelines(self, lines):
         object.__setattr__(self, "_dirty", True)
@@ -206,7 +215,9 @@ def my_open(file, mode="r", *a, **kw):
         _after(n)
         if rel.endswith(".log") or rel.endswith(".log.old"):
             return f          # the log is numbered (it is a mutation of the output directory) but not observed further
-        return _W(f, rel)
+        return _W(f, rel, n)
+    if rel is not None and not (rel.endswith(".log") or rel.endswith(".log.old")):
+        _note("read", rel)          # a file of the output directory opened for reading (unnumbered: no mutation)
     return _open(file, mode, *a, **kw)
 
 
